@@ -142,6 +142,8 @@ def solve_one(idx):
                 done = True; break
         if not done:
             done = attempt(levels[-1], RLIMIT_1, "z3", want_model=True)
+        if not done and ob.get("unfinished"):
+            done = True       # declared unfinished proof: tried with the plain ladder only
         if not done and z3.is_false(ob["goal"]):
             done = True       # a structurally false goal (e.g. trace shape mismatch) on a path the solver cannot refute: no point in the rest of the ladder
         if not done:
